@@ -284,10 +284,14 @@ pub fn run(args: &Args) {
     let mut tr = Tr::create(&args.out);
     let mut rng = Rng::new(args.seed);
     let nstates = if args.thorough { 100 } else { 8 };
-    let models = zoo::zoo(args.thorough);
+    let mut models = zoo::zoo(args.thorough);
+    let nzoo = models.len();
+    // models built from shipped records, stratified by structural class (fewer states each)
+    models.extend(zoo::shipped_sample(&mut rng, args.thorough));
     let mut cases = 0;
-    for m in &models {
+    for (mi, m) in models.iter().enumerate() {
         let eos = zoo::with_ideal_gas(&m.eos, m.n);
+        let nstates = if mi < nzoo { nstates } else if args.thorough { 6 } else { 2 };
         for k in 0..nstates {
             let x = sample_x(m, &mut rng, k);
             let case = format!("{}#{}", m.name, k);
